@@ -111,6 +111,16 @@ pub mod streaming_kzg {
 //@body
 //@end
 
+//@fn id=streaming.time.batch_commit file=poly-commit/src/streaming_kzg/time.rs scope="impl<E: Pairing> CommitterKey<E>" name=batch_commit props=C14,C08
+        pub fn batch_commit(&self, polynomials: Vec<&Vec<Fr>>) -> (r: Vec<Commitment>)
+        ensures
+            r@.len() == polynomials@.len(),   // name=streaming.time.batch_commit.one_commitment_per_polynomial props=C14
+            forall|i: int| 0 <= i < polynomials@.len() ==> (#[trigger] r@[i]).0@ == msm(self.powers_of_g@, fviews(polynomials@[i]@), min(self.powers_of_g@.len(), polynomials@[i]@.len())),   // name=streaming.time.batch_commit.each_is_the_commitment_of_its_polynomial props=C14,C08
+//@body
+//@rw 1 /p\.borrow\(\)/ => p.as_slice()
+//@rw 1 /\.collect::<Vec<_>>\(\)/ => .collect::<Vec<Commitment>>()
+//@closure |p| => |p: &Vec<Fr>| -> (o: Commitment) ensures o.0@ == msm(self.powers_of_g@, fviews(p@), min(self.powers_of_g@.len(), p@.len()))
+//@end
 //@fn id=streaming.time.open file=poly-commit/src/streaming_kzg/time.rs scope="impl<E: Pairing> CommitterKey<E>" name=open props=C14,C01
         pub fn open(&self, polynomial: &[Fr], evalualtion_point: &Fr) -> (r: (Fr, EvaluationProof))
         ensures
